@@ -100,6 +100,22 @@ static int stream_enabled(const char *s) {
     return 0;
 }
 
+/* event-point jitter: after an event was written (outside the trace lock) the emitting thread sleeps now and then, so that
+ * threads drift against each other between their linearization points (e.g. a row worker falls behind the row below) */
+static volatile unsigned g_jit_seed;
+static volatile int      g_jit_permille, g_jit_maxus;
+static __thread unsigned t_jit;
+void vrt_trace_jitter(unsigned seed, int permille, int max_us) { g_jit_seed = seed, g_jit_permille = permille, g_jit_maxus = max_us; }
+static void jitter_point(int tid) {
+    if (!g_jit_permille)
+        return;
+    if (!t_jit)
+        t_jit = ((g_jit_seed * 2654435761u) ^ ((unsigned)(tid + 1) * 40503u)) | 1u;
+    t_jit ^= t_jit << 13, t_jit ^= t_jit >> 17, t_jit ^= t_jit << 5;
+    if ((int)(t_jit % 1000u) < g_jit_permille)
+        usleep(1 + (t_jit >> 10) % (unsigned)(g_jit_maxus > 0 ? g_jit_maxus : 1));
+}
+
 void vrt_emit(const char *stream, const void *obj, const char *ev, int nargs, const long long *args) {
     if (!g_tr_file || !stream_enabled(stream))
         return;
@@ -118,6 +134,7 @@ void vrt_emit(const char *stream, const void *obj, const char *ev, int nargs, co
     }
     pthread_mutex_unlock(&g_tr_lock);
     t_internal--;
+    jitter_point(tid);
 }
 
 void vrt_note(const char *fmt, ...) {
